@@ -48,6 +48,28 @@ PROPS["C10"] = {
     "assumptions": ["as in the property, the guarantee lasts until the number is installed again; the monitor also forgets at a release change and at state-file damage"],
 }
 
+PROPS["C19"] = {
+    "modules": ["C19"], "required_theorems": ["C19_holds"], "monitors": ["C19"],
+    "fields": ["ret", "net", "pj", "pd", "sj"],
+    "campaign": camp([("lifecycle", 400), ("rollback", 300), ("mixed", 300), ("release", 150), ("chaos", 150)],
+                     [("lifecycle", 6000), ("rollback", 5000), ("mixed", 4000), ("release", 2500), ("chaos", 2500), ("damage", 2000), ("signing", 2000)]),
+    "assumptions": ["clause (iv) is stated for a pending patch that is not the one currently booting (such a patch is kept: it becomes the last good patch on success)"],
+}
+PROPS["C08"] = {
+    "modules": ["C08"], "required_theorems": ["C08_holds"], "monitors": ["C08"],
+    "fields": ["ret", "net", "pj", "pd", "sj", "sje"],
+    "campaign": camp([("release", 600), ("mixed", 300), ("damage", 200), ("chaos", 200)],
+                     [("release", 10000), ("mixed", 4000), ("damage", 3000), ("chaos", 3000), ("strings", 2000)]),
+    "assumptions": ["interruption of the first launch of the new release is C04"],
+}
+PROPS["C17"] = {
+    "modules": ["C17"], "required_theorems": ["C17_holds"], "monitors": ["C17"],
+    "fields": ["ret", "net", "sj", "sje", "pj"],
+    "campaign": camp([("lifecycle", 500), ("mixed", 300), ("rollback", 200), ("release", 150), ("chaos", 150)],
+                     [("lifecycle", 8000), ("mixed", 5000), ("rollback", 3000), ("release", 2000), ("chaos", 2000), ("strings", 2000)]),
+    "assumptions": ["events of spawned threads are awaited through the hook's live-thread counter; their order relative to later calls is not asserted"],
+}
+
 # Properties whose theorems are still being written: monitors + correspondence only (not in MANIFEST).
 for _p, _mon, _camp in [
     ("C01", ["C01"], camp(LIFE_Q, LIFE_T)), ("C03", ["C03"], camp(LIFE_Q, LIFE_T)), ("C05", ["C05"], camp(LIFE_Q, LIFE_T)),
